@@ -10,6 +10,7 @@ order, a missing target raises ValueError and changes nothing.
 import random
 
 import vlib
+from props import c09
 import wikigen
 from props import c11
 
@@ -73,6 +74,16 @@ def make_value(rng, tag):
     if k < 0.08:
         v = rng.choice([None, b"by%s" % tag.encode(), ["l%s " % tag, "{{m%s}}" % tag], ()])
         return v, {type(None): "", bytes: (v.decode() if isinstance(v, bytes) else ""), list: ("".join(v) if isinstance(v, list) else ""), tuple: ""}[type(v)]
+    if k < 0.14:
+        # "anything parse_anything takes": a list holding a node, a one-shot iterator, a file-like object
+        import io
+        node = M.parse("{{w%s|x}}" % tag).nodes[0]
+        v = rng.choice([[node, " t"], (x for x in ["g%s" % tag, "{{h}}"]), io.StringIO("f%s" % tag), iter(["i%s" % tag])])
+        if isinstance(v, list):
+            return v, str(node) + " t"
+        if isinstance(v, io.StringIO):
+            return v, "f%s" % tag
+        return v, ("g%s{{h}}" % tag if hasattr(v, "gi_frame") else "i%s" % tag)
     if k < 0.35:
         v = rng.choice(["NEW%s" % tag, "{{n%s}}" % tag, "[[l%s]] z" % tag, "a{{b%s}}c" % tag, ""])
         return v, v
@@ -186,8 +197,9 @@ def one_case(seed):
                 return text, ops_done, "after %s(view): %s" % (op, msg), nested
             continue
         if kind < 0.55:
-            # ---- node target
-            n = rng.choice(nodes)
+            # ---- node target: any node an attribute walk finds (not only those filter() lists); span_of() keeps those that are
+            # rendered exactly once, by identity - such a node is part of the page and an edit addressed to it must find it
+            n = rng.choice([x for x, _anc in c09.attribute_walk(page)[0]])
             sp = span_of(page, n)
             if sp is None:
                 continue
@@ -265,7 +277,8 @@ def one_case(seed):
             op = rng.choice(["insert", "append", "set"])
             ops_done.append((op, "index", i, repr(vtext)[:30]))
             before_code = str(code)
-            nvals = len(M.utils.parse_anything(val).nodes) if not isinstance(val, (M.wikicode.Wikicode,)) else len(val.nodes)
+            one_shot = hasattr(val, "__next__") or hasattr(val, "read")
+            nvals = (len(M.parse(vtext).nodes) if one_shot else len(M.utils.parse_anything(val).nodes)) if not isinstance(val, (M.wikicode.Wikicode,)) else len(val.nodes)
             try:
                 if op == "insert":
                     code.insert(i, val)
